@@ -474,8 +474,26 @@ pub mod pipeline {
         st!(v, "NormalMutation(0.3,0) rate adapted to 1", Some(Adapted::new(mutation::NormalMutation::new(0.3, 0.0), |st| { st.set_value::<mutation::MutationRate<mutation::NormalMutation>>(1.0); })));
         st!(v, "UniformMutation(0.5,0) rate adapted to 1", Some(Adapted::new(mutation::UniformMutation::new(0.5, 0.0), |st| { st.set_value::<mutation::MutationRate<mutation::UniformMutation>>(1.0); })));
         st!(v, "PartialRandomSpread(0) rate adapted to 1", Some(Adapted::new(mutation::PartialRandomSpread::new(0.0), |st| { st.set_value::<mutation::MutationRate<mutation::PartialRandomSpread>>(1.0); })));
+        // a user-defined mutation driven by the library's `mutation()` helper: it changes a gene of every solution and
+        // rejects (Err) solutions whose second coordinate is not positive, after having changed them
+        st!(v, "user Mutation via mutation() that fails midway", Some(Box::new(FailingMutation) as C));
         st!(v, "UniformMutation(0.5,1) rate adapted to 0", Some(Adapted::new(mutation::UniformMutation::new(0.5, 1.0), |st| { st.set_value::<mutation::MutationRate<mutation::UniformMutation>>(0.0); })));
         v
+    }
+
+    #[derive(Clone, serde::Serialize)]
+    pub struct FailingMutation;
+    impl mutation::Mutation<RealP> for FailingMutation {
+        fn mutate(&self, solution: &mut Vec<f64>, _problem: &RealP, _state: &mut mahf::State<RealP>) -> mahf::ExecResult<()> {
+            solution[0] = solution[0] * 0.5 + 0.125;
+            eyre::ensure!(solution[1] > 0.0, "cannot mutate a solution whose second coordinate is not positive");
+            Ok(())
+        }
+    }
+    impl Component<RealP> for FailingMutation {
+        fn execute(&self, problem: &RealP, state: &mut mahf::State<RealP>) -> mahf::ExecResult<()> {
+            mutation::mutation(self, problem, state)
+        }
     }
 
     /// a component whose state is adapted (as by a parameter-control step) between its initialisation and its execution
